@@ -5,6 +5,7 @@ import (
 	"encoding/json"
 	"errors"
 	"fmt"
+	"sort"
 	"strings"
 
 	"github.com/tigerwill90/fox"
@@ -233,7 +234,31 @@ func evalCase(cs Case, expCache map[string]string) (class, msg string) {
 		for m, r := range it.All() {
 			all = append(all, fmt.Sprintf("%s %s#%d", m, r.Pattern(), fx.RouteVer(r)))
 		}
-		return strings.Join(all, ";")
+		sort.Strings(all)
+		out := strings.Join(all, ";")
+		for _, p := range probes {
+			for _, r := range it.Reverse(func(y func(string) bool) { y(p.m) }, "", p.path) {
+				out += fmt.Sprintf("|reverse %s %s=%s#%d", p.m, p.path, r.Pattern(), fx.RouteVer(r))
+			}
+		}
+		return out
+	}
+	// what a reader taken inside the transaction at this point must show: the model state so far
+	expIter := func(m hist.Model) string {
+		k := m.String() + "iter"
+		if v, ok := expCache[k]; ok {
+			return v
+		}
+		g, _ := fox.New()
+		for _, key := range sortKeys(m) {
+			v := m[key]
+			if _, err := g.Handle(key.Method, key.Pattern, fx.VerHandler(v), fx.WithVer(v)); err != nil {
+				panic(err)
+			}
+		}
+		v := iterObs(g.Iter())
+		expCache[k] = v
+		return v
 	}
 	var bodyErr string
 	runBody := func(txn *fox.Txn) {
@@ -242,9 +267,15 @@ func evalCase(cs Case, expCache map[string]string) (class, msg string) {
 			case opSnap:
 				s := txn.Snapshot()
 				snaps = append(snaps, snap{rd: s, want: observe(s, nil), at: i})
+				if g, w := snaps[len(snaps)-1].want, exp(cur, 0); g != w && bodyErr == "" {
+					bodyErr = fmt.Sprintf("the Snapshot taken at step %d does not show the transaction's writes so far:\n%s    want\n%s", i, ind(g), ind(w))
+				}
 			case opIter:
 				it := txn.Iter()
 				snaps = append(snaps, snap{it: &it, want: iterObs(it), at: i})
+				if g, w := snaps[len(snaps)-1].want, expIter(cur); g != w && bodyErr == "" {
+					bodyErr = fmt.Sprintf("the Iter taken at step %d does not show the transaction's writes so far:\n      %s\n    want\n      %s", i, g, w)
+				}
 			case hist.Truncate:
 				var err error
 				if b.Method == "" {
@@ -373,7 +404,7 @@ func evalCase(cs Case, expCache map[string]string) (class, msg string) {
 			cls = "snapshot-changed"
 		} else if strings.Contains(bodyErr, "returned") {
 			cls = "txn-result"
-		} else if strings.Contains(bodyErr, "own writes") {
+		} else if strings.Contains(bodyErr, "own writes") || strings.Contains(bodyErr, "writes so far") {
 			cls = "txn-read-own-writes"
 		}
 		return fail(cls, "%s", bodyErr)
